@@ -552,7 +552,10 @@ def der_open(der, passphrase=None):
         if passphrase is None:
             raise Bad("epki/needs-passphrase", "")
         pt, enc = pbes2_open(node, passphrase)
-        node = strict(pt, "decrypted PrivateKeyInfo")
+        try:
+            node = strict(pt, "decrypted PrivateKeyInfo")
+        except Bad as b:
+            raise Bad("pbes2/decrypted-data-is-not-DER", "%s; first octets %s" % (b.text, pt[:8].hex()))
         chain = ["epki"]
         info = _private_key_info(node, chain)
     elif len(ch) == 2 and ch[0].tag == 0x30 and ch[1].tag == 0x03:
